@@ -65,7 +65,7 @@ class EMGTrack(Sized, BuildWriteable):
 
     @property
     def _segments(self):
-        maskedTrackData = np.ma.masked_invalid(self.data)
+        maskedTrackData = np.ma.masked_where(np.isnan(self.data), self.data)
         return np.ma.clump_unmasked(maskedTrackData.T)
 
     @staticmethod
